@@ -68,7 +68,9 @@ SAFE_METHODS = {
     dict: {'get', 'keys', 'values', 'items', 'setdefault', 'update', 'pop', 'copy'},
     types.MappingProxyType: {'get', 'keys', 'values', 'items'},
     set: {'add', 'union', 'intersection', 'difference', 'discard', 'remove', 'update', 'isdisjoint', 'issubset', 'issuperset'},
-    type(re.compile('')): {'match', 'fullmatch', 'search', 'sub', 'findall'},
+    type(re.compile('')): {'match', 'fullmatch', 'search', 'sub', 'findall', 'finditer', 'split', 'subn'},
+    collections.Counter: {'most_common', 'elements', 'subtract', 'total'},
+    frozenset: {'union', 'intersection', 'difference', 'isdisjoint', 'issubset', 'issuperset'},
 }
 
 
@@ -318,13 +320,18 @@ class Interp:
                     break
                 except _Continue:
                     continue
+            else:
+                self.block(s.orelse, env, mod)
         elif isinstance(s, ast.Break):
             raise _Break()
         elif isinstance(s, ast.Continue):
             raise _Continue()
         elif isinstance(s, ast.Assert):
             if not self.expr(s.test, env, mod):
-                raise Unsupported('assertion of the interpreted function fails: %s' % ast.unparse(s.test))
+                r = Raised('assertion of the interpreted function fails: %s' % ast.unparse(s.test))
+                r.excname = 'AssertionError'
+                r.pyexc = AssertionError(self.expr(s.msg, env, mod)) if s.msg is not None else AssertionError()
+                raise r
         elif isinstance(s, ast.Pass):
             pass
         elif isinstance(s, (ast.Global, ast.Nonlocal)):
@@ -372,6 +379,20 @@ class Interp:
             r.excname = x.id if isinstance(x, ast.Name) else (x.attr if isinstance(x, ast.Attribute) else None)
             if s.exc is None and '#exc' in env:
                 r = env['#exc']
+            elif s.exc is not None:
+                # the exception object the handler will see: built with the arguments given (a plain Exception stands for
+                # exception classes of the repository)
+                import builtins
+                klass = getattr(builtins, r.excname or '', None)
+                if not (isinstance(klass, type) and issubclass(klass, BaseException)) or (r.excname in mod.syms):
+                    klass = Exception
+                try:
+                    a_ = [self.expr(a, env, mod) for a in s.exc.args] if isinstance(s.exc, ast.Call) and not s.exc.keywords else []
+                    r.pyexc = klass(*a_)
+                except Unsupported:
+                    raise
+                except Exception:
+                    r.pyexc = klass()
             raise r
         elif isinstance(s, ast.Try):
             try:
@@ -413,9 +434,20 @@ class Interp:
                 env[t.id] = v
         elif isinstance(t, (ast.Tuple, ast.List)):
             vs = list(v)
-            if len(vs) != len(t.elts):
-                raise Unsupported('unpack mismatch')
-            for a, b in zip(t.elts, vs):
+            stars = [i for i, a in enumerate(t.elts) if isinstance(a, ast.Starred)]
+            if len(stars) == 1 and len(vs) >= len(t.elts) - 1:
+                i = stars[0]
+                tail = len(t.elts) - i - 1
+                mid = vs[i:len(vs) - tail]
+                vs = vs[:i] + [mid] + vs[len(vs) - tail:]
+                elts = [a.value if isinstance(a, ast.Starred) else a for a in t.elts]
+            else:
+                elts = t.elts
+            if len(vs) != len(elts) or len(stars) > 1:
+                r = Raised('cannot unpack %d values into %d targets' % (len(vs), len(elts)))
+                r.excname = 'ValueError'
+                raise r
+            for a, b in zip(elts, vs):
                 self.assign(a, b, env, mod)
         elif isinstance(t, ast.Attribute):
             o = self.expr(t.value, env, mod)
@@ -484,6 +516,12 @@ class Interp:
                     out += v.value
                 else:
                     x = self.expr(v.value, env, mod)
+                    if v.conversion == ord('r'):
+                        x = repr(x)
+                    elif v.conversion == ord('s'):
+                        x = str(x)
+                    elif v.conversion == ord('a'):
+                        x = ascii(x)
                     out += format(x, self.expr(v.format_spec, env, mod) if v.format_spec else '')
             return out
         if isinstance(e, ast.Tuple):
@@ -511,6 +549,10 @@ class Interp:
                 return not v
             if isinstance(e.op, ast.USub):
                 return -v
+            if isinstance(e.op, ast.UAdd):
+                return +v
+            if isinstance(e.op, ast.Invert):
+                return ~v
             raise Unsupported('unary op')
         if isinstance(e, ast.BinOp):
             return self.binop(e.op, self.expr(e.left, env, mod), self.expr(e.right, env, mod))
@@ -562,6 +604,8 @@ class Interp:
                 return o[1].mod.name
             if _is_model(o) or _foreign(self, o):
                 return getattr(o, e.attr)
+            if isinstance(o, type) and e.attr in ('__name__', '__module__', '__qualname__'):
+                return getattr(o, e.attr)            # name of a Python class (type(x).__name__)
             if isinstance(o, tuple) and e.attr in getattr(type(o), '_fields', ()):
                 return getattr(o, e.attr)       # field of a namedtuple
             if isinstance(o, Obj):
@@ -667,6 +711,27 @@ class Interp:
                 and 'eval' not in env:
             # eval('ClassName'): the only use in this code base - a name looked up in the module (never evaluated for real)
             return self.expr(ast.Name(id=args[0], ctx=ast.Load()), {}, mod)
+        if isinstance(fn, ast.Name) and fn.id == 'type' and len(args) == 1 and isinstance(args[0], Obj) and args[0].cls is not None \
+                and 'type' not in env:
+            return ('#classof', args[0].cls)
+        if isinstance(fn, ast.Name) and fn.id in ('len', 'sorted', 'list', 'tuple', 'set', 'iter', 'sum', 'min', 'max', 'any', 'all', 'enumerate',
+                                                  'dict', 'reversed', 'bool') and fn.id not in env and any(isinstance(a, Obj) for a in args):
+            # containers of repository classes: a class that defines __len__ / __iter__ answers itself, a dict subclass by its entries
+            conv = []
+            for a in args:
+                if isinstance(a, Obj) and a.cls is not None:
+                    special = self.prog.lookup_method(a.cls.qn, '__len__' if fn.id in ('len', 'bool') else '__iter__')
+                    if special is not None:
+                        v = self.invoke(special, [], {}, a)
+                        if fn.id in ('len', 'bool'):
+                            return v if fn.id == 'len' else bool(v)
+                        a = v
+                    elif any(b.split('.')[-1] in ('dict', 'OrderedDict') for b in self.prog.external_bases(a.cls.qn)):
+                        a = a.items
+                    else:
+                        raise Unsupported('%s() of a %s' % (fn.id, a.cls.name))
+                conv.append(a)
+            return SAFE_BUILTINS[fn.id](*self._py(conv), **{k: self._py1(v) for k, v in kwargs.items()})
         if isinstance(fn, ast.Name) and fn.id == 'isinstance' and len(args) == 2 and 'isinstance' not in env:
             kinds = args[1] if isinstance(args[1], tuple) and not (args[1] and args[1][0] == '#sym') else (args[1],)
             for k in kinds:
@@ -710,6 +775,8 @@ class Interp:
                         raise r
                     raise Unsupported('method %s of %s' % (fn.attr, o.cls.name))
                 return self.invoke(m, args, kwargs, o)
+            if isinstance(o, tuple) and hasattr(type(o), '_fields') and fn.attr in ('_replace', '_asdict', 'index', 'count'):
+                return getattr(o, fn.attr)(*args, **kwargs)       # namedtuple methods
             for t, names in SAFE_METHODS.items():
                 if isinstance(o, t) and fn.attr in names:
                     return getattr(o, fn.attr)(*self._py(args), **{k: self._py1(v) for k, v in kwargs.items()})
@@ -742,19 +809,7 @@ class Interp:
             return self.invoke(f[1], args, kwargs, f[2])
         if isinstance(f, tuple) and f and f[0] == '#def':
             node, cenv, mod = f[1], f[2], f[3]
-            env = dict(cenv)
-            names = [a.arg for a in node.args.args]
-            defaults = node.args.defaults
-            for i, nm in enumerate(names):
-                if i < len(args):
-                    env[nm] = args[i]
-                elif nm in kwargs:
-                    env[nm] = kwargs[nm]
-                else:
-                    j = i - (len(names) - len(defaults))
-                    if j < 0:
-                        raise Unsupported('missing argument %s of local function %s' % (nm, node.name))
-                    env[nm] = self.expr(defaults[j], cenv, mod)
+            env = self._bind_local(node.args, args, kwargs, cenv, mod, node.name)
             gen = _is_generator(node)
             if gen:
                 env['#yield'] = []
@@ -764,9 +819,8 @@ class Interp:
                 return iter(env['#yield']) if gen else r.v
             return iter(env['#yield']) if gen else None
         if isinstance(f, tuple) and f and f[0] == '#lambda':
-            lam, env, mod = f[1], dict(f[2]), f[3]
-            for p, a in zip([x.arg for x in lam.args.args], args):
-                env[p] = a
+            lam, cenv, mod = f[1], f[2], f[3]
+            env = self._bind_local(lam.args, args, kwargs, cenv, mod, 'lambda')
             return self.expr(lam.body, env, mod)
         if callable(f) and (f in SAFE_BUILTINS.values() or f in SAFE_ATTR_CALLS.values()):
             return f(*self._py(args), **{k: self._py1(v) for k, v in kwargs.items()})
@@ -780,6 +834,48 @@ class Interp:
                 if isinstance(owner, t) and getattr(f, '__name__', '') in names:
                     return f(*self._py(args), **kwargs)
         raise Unsupported('call of %r' % (f,))
+
+    def _bind_local(self, a, args, kwargs, cenv, mod, what):
+        """parameters of a nested def / lambda bound as Python binds them (defaults evaluated in the defining scope)"""
+        env = dict(cenv)
+        env.pop('#yield', None)
+        kwargs = dict(kwargs)
+        names = [x.arg for x in a.posonlyargs + a.args]
+        defaults = a.defaults
+        if len(args) > len(names) and a.vararg is None:
+            r = Raised('%s() takes %d positional arguments but %d were given' % (what, len(names), len(args)))
+            r.excname = 'TypeError'
+            raise r
+        for i, nm in enumerate(names):
+            if i < len(args):
+                env[nm] = args[i]
+            elif nm in kwargs:
+                env[nm] = kwargs.pop(nm)
+            else:
+                j = i - (len(names) - len(defaults))
+                if j < 0:
+                    r = Raised('%s() missing argument %s' % (what, nm))
+                    r.excname = 'TypeError'
+                    raise r
+                env[nm] = self.expr(defaults[j], cenv, mod)
+        if a.vararg is not None:
+            env[a.vararg.arg] = tuple(args[len(names):])
+        for x, d in zip(a.kwonlyargs, a.kw_defaults):
+            if x.arg in kwargs:
+                env[x.arg] = kwargs.pop(x.arg)
+            elif d is not None:
+                env[x.arg] = self.expr(d, cenv, mod)
+            else:
+                r = Raised('%s() missing keyword-only argument %s' % (what, x.arg))
+                r.excname = 'TypeError'
+                raise r
+        if a.kwarg is not None:
+            env[a.kwarg.arg] = kwargs
+        elif kwargs:
+            r = Raised('%s() got an unexpected keyword argument %s' % (what, sorted(kwargs)[0]))
+            r.excname = 'TypeError'
+            raise r
+        return env
 
     def _py1(self, v):
         """A lambda of the interpreted program as a Python callable (for sorted(key=...), map, filter ...)."""
@@ -799,7 +895,11 @@ class Interp:
             # unbound call Class.m(obj, ...)
             return self.call(m, args, kwargs, None)
         if m.is_classmethod:
-            return self.call(m, args, kwargs, ('#sym', None))
+            owner = selfobj.cls if isinstance(selfobj, Obj) and selfobj.cls is not None else m.cls
+            sym = owner.mod.syms.get(owner.name) if owner is not None else None
+            if sym is None:
+                raise Unsupported('classmethod %s: class not known' % m.short)
+            return self.call(m, args, kwargs, ('#sym', sym))
         return self.call(m, args, kwargs, selfobj if (m.is_method and not m.is_static) else None)
 
     @staticmethod
@@ -818,6 +918,18 @@ class Interp:
             return a | b
         if isinstance(op, ast.BitAnd):
             return a & b
+        if isinstance(op, ast.Div):
+            return a / b
+        if isinstance(op, ast.Pow):
+            return a ** b
+        if isinstance(op, ast.BitXor):
+            return a ^ b
+        if isinstance(op, ast.LShift):
+            return a << b
+        if isinstance(op, ast.RShift):
+            return a >> b
+        if isinstance(op, ast.MatMult):
+            return a @ b
         raise Unsupported('binary op %s' % type(op).__name__)
 
     @staticmethod
@@ -834,10 +946,10 @@ class Interp:
             return a > b
         if isinstance(op, ast.GtE):
             return a >= b
-        if isinstance(op, ast.In):
-            return a in b
-        if isinstance(op, ast.NotIn):
-            return a not in b
+        if isinstance(op, (ast.In, ast.NotIn)):
+            if isinstance(b, Obj):
+                b = b.items          # a repo class deriving from dict: membership is over its keys
+            return (a in b) if isinstance(op, ast.In) else (a not in b)
         if isinstance(op, ast.Is):
             return a is b
         if isinstance(op, ast.IsNot):
